@@ -30,7 +30,7 @@ DED = {
     "C09": "rule_list.fix: fixed order of phases, sub-phases and rules (a function of the rule list only), normalisers after phase 1, indent refresh before phase 4; enforce_prerequisites puts every rule that names prerequisites behind all rules of its sub-phase that name none, independently of which rules are enabled; the normalisers are idempotent-compatible filters (keep non-blank tokens and line breaks)",
     "C10": "Rule.fix analyses, filters, fixes each violation once and updates once; " + BASES + " have postconditions that state the region carries the requested white space / indentation / case afterwards; vhdlFile.update rebuilds the index iff bUpdateMap; whitespace_between_tokens._analyze: the width every violation asks for is a width the same analysis accepts for the option value in force (integer, '>N', '>=N', '<N', '<=N', 'N+'), so the rule cannot report again right after its own fix",
     "C18": "the extraction helpers behind the three largest rule bases (get_tokens_matching, get_tokens_at_beginning_of_line_matching, get_sequence_of_tokens_matching: 516 rules) and get_tokens_bounded_by (41 direct users) return regions that are exactly the slice of the token list at their recorded start (lengths 1, 1-2, len(sequence)), given that the index agrees with the list (the property's first clause, assumed there and observed at every analysis); rule_list.fix re-indexes after the phase-1 normalisers and nowhere else touches the list outside Rule.fix; vhdlFile.update: splice semantics and 'index rebuilt from the new list iff bUpdateMap'; update_token_map: index == INDEX(list); calculate_end_index / extract_tokens: [iStartIndex, iEndIndex) has as many positions as the region has real tokens and sub-regions shift the start by the tokens skipped; token_case._fix_violation keeps the region's token objects (remap=False is sound for it)",
-    "C19": "vsg/tokens.py raises nothing for any string; apply_rules lets no ClassifyError / ConfigurationError / local-rules OSError escape, returns exit status True/1 for a rejected file and 'keep processing' after a syntax error; detect_subelement_until / classify_subelement_until (the statement-part loops of the parser) terminate (decreases clause) given that a classifier never returns an index in front of its argument, and so do the eight <x>_part.detect loops that repeat an item detector until it makes no progress (process / subprogram statement parts, sequence_of_statements, the declarative parts of processes, subprograms, packages, package bodies, configurations); object_value_is raises IndexError exactly for an index past the end; the three fix bases above raise nothing under their preconditions",
+    "C19": "vsg/tokens.py raises nothing for any string; apply_rules lets no ClassifyError / ConfigurationError / local-rules OSError escape, returns exit status True/1 for a rejected file and 'keep processing' after a syntax error; detect_subelement_until / classify_subelement_until (the statement-part loops of the parser) terminate (decreases clause) given that a classifier never returns an index in front of its argument, and so do the eight <x>_part.detect loops that repeat an item detector until it makes no progress (process / subprogram statement parts, sequence_of_statements, the declarative parts of processes, subprograms, packages, package bodies, configurations); the classifier itself: for each of its 389 token-walking functions a position contract GENERATED from the source (0 <= iToken <= len => iToken <= result <= len, the token list keeps its length, every while loop with the measure 'distance to the end of the list'), verified against the generated contracts of its callees -- 346 verify, the others are assumed and listed (contracts/parser_unverified.json); the token helpers of vhdlFile/utils.py (assign_next_token*, assign_tokens_until*, tokenize_label, find_in_*, detect_submodule, the parenthesis matchers) by hand; what is proved is partial correctness of the positions plus termination of every loop under contract, NOT termination of the recursion between classifiers; object_value_is raises IndexError exactly for an index past the end; the three fix bases above raise nothing under their preconditions",
 }
 
 
